@@ -807,7 +807,10 @@ class CiderNumIntMixin:
         vxc_ml = self.settings.normalizers.get_derivative_wrt_unnormed_features(
             X0T, dexcdX0TN_ml
         )
-        exc[:] += exc_ml / (rho[:, 0].sum(axis=0) + 1e-16)
+        # energy per particle: exact division (zero where the density is zero), so that
+        # rho * exc is the energy density whose derivative vxc is
+        rho_tot = rho[:, 0].sum(axis=0)
+        exc[:] += np.divide(exc_ml, rho_tot, out=np.zeros_like(exc_ml), where=rho_tot != 0)
 
         start = 0
         if has_sl:
